@@ -50,6 +50,7 @@ def main(tier):
     chk.run("R-FOREIGNFILE", S.foreignfile, r, floor=8)
     chk.run("R-SYNTHMARK", SY.synthmark, r, floor=10)
     chk.run("R-NEGEXP", RG.negexp, r, floor=3)
+    chk.run("R-SYNTHLOC", P.synthloc, r, s, cx.sites, floor=1)
     chk.run("R-TEXTREAD", S.textread, r, floor=1)
     chk.run("R-LINESPLIT", K.linesplit, r, side="printer", floor=1)
     return chk.finish()
